@@ -8,18 +8,18 @@ import (
 // Result is what executing one script yields.  Exec is a pure function of the
 // script and the code under test.
 type Result struct {
-	Violation *Violation
-	LogHash   string
-	Events    int // simulated time: seam crossings + steps
-	Steps     int
-	Probes    map[string]int
-	Faults    map[string]int // fault kinds that actually fired
-	State     uint64         // hash of the final model state / interleaving
-	Foreign   int            // runs cut short by a panic that belongs to another property
+	Violation  *Violation
+	LogHash    string
+	Events     int // simulated time: seam crossings + steps
+	Steps      int
+	Probes     map[string]int
+	Faults     map[string]int // fault kinds that actually fired
+	State      uint64         // hash of the final model state / interleaving
+	Foreign    int            // runs cut short by a panic that belongs to another property
 	NonTrivial bool
 	Evals      int   // evaluations inside this run (default 1)
 	Pin        []int // engine-specific: where the violation was found
-	Log       []string
+	Log        []string
 }
 
 // Engine is one property's generator + executor + oracle.
@@ -165,8 +165,8 @@ func genItems(r *Rng, count int, level int, ctr *int) []Item {
 // buildWeights is the op mix of a build script; redrawn per run (swarm).
 type buildMix struct {
 	headers, rowItems, newRow, rowAdd, attach, appendNew, separator, sepAdd, scramble int
-	maxCells                                                                           int
-	wide                                                                               bool
+	maxCells                                                                          int
+	wide                                                                              bool
 }
 
 func drawBuildMix(r *Rng) buildMix {
